@@ -9,6 +9,7 @@ package main
 
 import (
 	"bufio"
+	"bytes"
 	"encoding/hex"
 	"encoding/json"
 	"fmt"
@@ -588,6 +589,129 @@ func generate(b *bounds, emit func(job)) {
 			}
 		}
 	}
+
+	generateLong(b, emit, rkAll)
+}
+
+// Length classes around every size threshold visible in record_formatter.go or
+// implied by it: readSize's 64 KiB chunk (65535, 65536, 65537, 100000, two
+// chunks -1/0/+5, three chunks +5), the 4 KiB bufio.Reader the RecordReader
+// wraps its input in (4095, 4096, 4097, 8192), and the unsigned maxima / sign
+// bits of the 8- and 16-bit size encodings (127, 128, 255, 256, 257, 32767,
+// 32768, 65535).
+var longLens = []int{127, 128, 255, 256, 257, 4095, 4096, 4097, 8192, 32767, 32768, 65535, 65536, 65537, 100000, 131071, 131072, 131077, 196613}
+var manyHdrs = []int{127, 128, 255, 256, 257, 1000}
+
+const (
+	lkTopic = iota
+	lkKey
+	lkValue
+	lkHdrKey
+	lkHdrValue
+	nLongKinds
+)
+
+// generateLong: for every size-prefixed field kind x every size encoding wide
+// enough x every length class, two layouts in which the long field is followed
+// by further fields of the same record, and streams in which the long record
+// is followed by another record, so that an over- or under-read is visible.
+func generateLong(b *bounds, emit func(job), rks []int) {
+	byteNF := nfByName("byte")
+	plainEncs := []int{encPlain}
+	if ev.Thorough() {
+		plainEncs = []int{encPlain, encPlainBrace}
+	}
+	small := func(i int) rec {
+		return rec{topic: []byte("t"), key: []byte{byte('0' + i)}, value: []byte("v\n"), hdrs: []hdr{{[]byte("h"), []byte{0xff}}, {[]byte("i"), nil}},
+			num: [6]int64{int64(0x01020304 + i), 0x0102030405060708, 0, 0, 0, 0}}
+	}
+	for kind := 0; kind < nLongKinds; kind++ {
+		for _, nf := range allNF {
+			var lens []int
+			for _, n := range longLens {
+				if int64(n) <= nf.maxU() {
+					lens = append(lens, n)
+				}
+			}
+			if len(lens) == 0 {
+				continue
+			}
+			for _, enc := range plainEncs {
+				for variant := 0; variant < 2; variant++ {
+					// the long field F, a small sized text field S, numbers
+					var f, s []elem
+					switch kind {
+					case lkTopic, lkKey, lkValue:
+						f = textField(kind, nf, sp, enc)
+						other := (kind + 1) % 3
+						s = textField(other, byteNF, sp, encPlain)
+					case lkHdrKey:
+						f = hdrField(byteNF, sp, innerKV(nf, enc, byteNF, encPlain, sp, variant*3))
+						s = textField(tValue, byteNF, sp, encPlain)
+					case lkHdrValue:
+						f = hdrField(byteNF, sp, innerKV(byteNF, encPlain, nf, enc, sp, variant*3))
+						s = textField(tKey, byteNF, sp, encPlain)
+					}
+					p := numField(tPart, nfByName("big32"), sp)
+					o := numField(tOff, nfByName("hex64"), sp)
+					var es []elem
+					if variant == 0 {
+						es = cat(f, p, s, o) // long field first
+					} else {
+						es = cat(p, s, litElem(lit{"|", "|"}), f, o, litElem(lit{`\n`, "\n"})) // long field after others, literal around
+					}
+					kind, lens := kind, lens
+					emit(job{mkLayout("long-field", es), func(l *layout) [][]rec {
+						var out [][]rec
+						for _, n := range lens {
+							long := func(seed byte, n int) rec {
+								r := small(int(seed % 8))
+								p := pat(seed, n)
+								switch kind {
+								case lkTopic, lkKey, lkValue:
+									setText(&r, kind, p)
+								case lkHdrKey:
+									r.hdrs = []hdr{{p, []byte("x")}, {[]byte("after"), []byte("y")}}
+								case lkHdrValue:
+									r.hdrs = []hdr{{[]byte("k"), p}, {[]byte("after"), []byte("y")}}
+								}
+								return r
+							}
+							out = append(out,
+								[]rec{long(3, n), small(1)},
+								[]rec{small(2), long(5, n)},
+								[]rec{long(7, n), long(9, n), small(3)})
+						}
+						return out
+					}, rks, 0})
+				}
+			}
+		}
+	}
+	// many headers: the %H count around the same 8-bit thresholds and beyond
+	for _, nf := range allNF {
+		var counts []int
+		for _, n := range manyHdrs {
+			if int64(n) <= nf.maxU() {
+				counts = append(counts, n)
+			}
+		}
+		if len(counts) == 0 {
+			continue
+		}
+		es := cat(hdrField(nf, sp, innerKV(byteNF, encPlain, byteNF, encPlain, sp, 0)), numField(tPart, nfByName("big32"), sp))
+		emit(job{mkLayout("many-headers", es), func(l *layout) [][]rec {
+			var out [][]rec
+			for _, n := range counts {
+				many := rec{num: [6]int64{0x01020304}}
+				for i := 0; i < n; i++ {
+					many.hdrs = append(many.hdrs, hdr{[]byte(strconv.Itoa(i)), []byte{byte(i), byte(i >> 8)}})
+				}
+				out = append(out, []rec{many, small(1)}, []rec{small(2), many})
+			}
+			return out
+		}, rks, 0})
+	}
 }
 
 // ---------------------------------------------------------------- execution
@@ -616,19 +740,41 @@ type artefact struct {
 	Count      int64    `json:"cases_in_class"`
 }
 
+// encField is the replayable spelling of a payload: hex, or "pat:<seed>:<len>"
+// for the long generated payloads.
+func encField(b []byte) string {
+	if len(b) > 256 && bytes.Equal(b, pat(b[0], len(b))) {
+		return fmt.Sprintf("pat:%d:%d", b[0], len(b))
+	}
+	return hex.EncodeToString(b)
+}
+
+func decField(s string) []byte {
+	var seed, n int
+	if c, _ := fmt.Sscanf(s, "pat:%d:%d", &seed, &n); c == 2 {
+		return pat(byte(seed), n)
+	}
+	b, _ := hex.DecodeString(s)
+	return b
+}
+
 func toJrec(r *rec) jrec {
-	j := jrec{Topic: hex.EncodeToString(r.topic), Key: hex.EncodeToString(r.key), Value: hex.EncodeToString(r.value), Nums: r.num, EmptyNonNil: r.emptyNonNil}
-	txt := fmt.Sprintf("topic=%q key=%q value=%q headers=[", r.topic, r.key, r.value)
-	for _, h := range r.hdrs {
-		j.Headers = append(j.Headers, [2]string{hex.EncodeToString(h.k), hex.EncodeToString(h.v)})
-		txt += fmt.Sprintf("%q:%q ", h.k, h.v)
+	j := jrec{Topic: encField(r.topic), Key: encField(r.key), Value: encField(r.value), Nums: r.num, EmptyNonNil: r.emptyNonNil}
+	txt := "topic=" + abbr(r.topic) + " key=" + abbr(r.key) + " value=" + abbr(r.value) + " headers=["
+	for i, h := range r.hdrs {
+		j.Headers = append(j.Headers, [2]string{encField(h.k), encField(h.v)})
+		if i < 4 || len(r.hdrs) <= 8 {
+			txt += abbr(h.k) + ":" + abbr(h.v) + " "
+		} else if i == 4 {
+			txt += fmt.Sprintf("...(%d headers) ", len(r.hdrs))
+		}
 	}
 	j.Text = txt + fmt.Sprintf("] partition=%d offset=%d leader-epoch=%d timestamp-ms=%d producer-id=%d producer-epoch=%d", r.num[0], r.num[1], r.num[2], r.num[3], r.num[4], r.num[5])
 	return j
 }
 
 func fromJrec(j *jrec) rec {
-	dh := func(s string) []byte { b, _ := hex.DecodeString(s); return b }
+	dh := decField
 	r := rec{topic: dh(j.Topic), key: dh(j.Key), value: dh(j.Value), num: j.Nums, emptyNonNil: j.EmptyNonNil}
 	for _, h := range j.Headers {
 		r.hdrs = append(r.hdrs, hdr{dh(h[0]), dh(h[1])})
@@ -678,7 +824,7 @@ func (s *stats) record(l *layout, recs []rec, rk int, stream []byte, fl *failure
 	_, what := classify(l, recs, fl, true)
 	c.score, c.what = score, what
 	a := artefact{Layout: l.str, Family: l.family, Carries: l.carriedNames(), ReaderKind: rk, Reader: readerKindNames[rk],
-		Stream: strconv.Quote(string(stream)), FailedAt: fl.idx, Failure: fl.kind}
+		Stream: abbrStream(stream), FailedAt: fl.idx, Failure: fl.kind}
 	if fl.err != "" {
 		a.Failure += ": " + fl.err
 	}
@@ -692,6 +838,13 @@ func (s *stats) record(l *layout, recs []rec, rk int, stream []byte, fl *failure
 		a.Records = append(a.Records, toJrec(&recs[i]))
 	}
 	c.art = a
+}
+
+func abbrStream(b []byte) string {
+	if len(b) <= 400 {
+		return strconv.Quote(string(b))
+	}
+	return fmt.Sprintf("%q...(%d bytes)", b[:64], len(b))
 }
 
 // guard runs fn and turns a panic into a failure.
@@ -820,7 +973,7 @@ func replay(path string) {
 	for i := range recs {
 		fmt.Printf("record %d: %s\n", i, a.Records[i].Text)
 	}
-	fmt.Printf("stream  %q\n", stream)
+	fmt.Printf("stream  %s\n", abbrStream(stream))
 	if fl == nil {
 		var ti truncInfo
 		fl = guard(func() *failure { return truncated(l, stream, bnd, recs, &ti, nil) })
